@@ -1261,7 +1261,7 @@ func toString(v interface{}) string {
 		}
 	}
 
-	return fmt.Sprintf("%v", v)
+	return formatWithoutAddresses(v)
 }
 
 func toInt(v interface{}) (int, error) {
